@@ -352,13 +352,14 @@ func universes() []universe {
 		return []universe{
 			{"abc-d3-g2-r5", abc, 3, 2, kinds9, tricks(abc), 5},
 			{"ab-d3-g3-r5", ab, 3, 3, kinds7, tricks(ab), 5},
-			{"abc-d2-g3-r5", abc, 2, 3, kinds7, tricks(abc), 5},
+			{"abc-d2-g3-r4", abc, 2, 3, kinds7, tricks(abc), 4},
 			{"abc-d3-g3-r3", abc, 3, 3, kinds7, tricks(abc), 3},
 		}
 	}
 	return []universe{
 		{"ab-d2-g3-r4", ab, 2, 3, kinds7, tricks(ab), 4},
-		{"ab-d3-g2-r5", ab, 3, 2, kinds7, tricks(ab), 5},
+		{"ab-d3-g2-r4", ab, 3, 2, kinds7, tricks(ab), 4},
+		{"ab-d2-g2-r5", ab, 2, 2, kinds7, tricks(ab), 5},
 		{"abc-d2-g2-r4", abc, 2, 2, kinds7, tricks(abc), 4},
 	}
 }
